@@ -82,7 +82,11 @@ class Model(LogicType.Model[Meta.values]):
             # Replace each position independently by any of its identicals.
             to_add.update(product(*(classes[c] for c in params)))
         for params in to_add:
-            interp[params] = 'T'
+            # Leave explicitly assigned values alone: literals read from a
+            # branch may be jointly unsatisfiable, which is not for the
+            # completion to report.
+            if params not in interp:
+                interp[params] = 'T'
 
     def _get_identicals(self, c: Constant, w=0) -> set[Constant]:
         """The constants identical to `c` at `w`, excluding `c` itself: the
